@@ -65,6 +65,7 @@ def parseOp (syms : List (String × Int)) (u : List (RKey Key)) (t : String) : O
   | ["len"] => some [.len]
   | ["hpair", n] => n.toNat?.map (fun n => [.hpair n])
   | ["range"] => some [.range]
+  | ["ranged"] => some [.range]     -- `k, v := range h`: the same iteration, defining form
   | ["str"] => some [.str]
   | ["json"] => some [.json]
   | ["obs"] => some (obsSuite u)
